@@ -92,6 +92,17 @@ def _wrapshapes(curve, n):
     return [_shape(C[i % len(C)]) for i in range(n)]
 
 
+def _cutoff_is_exp(curve):
+    """the release segment is exponential, however the curve is spelt: any alias of shape 2, bare or as the
+    only element of a list (a NUMBER is never shape 2)"""
+    c = curve[0] if isinstance(curve, list) and len(curve) == 1 else curve
+    if isinstance(c, list):
+        for x in c:
+            _shape(x)                      # unknown names raise
+        return False
+    return _shape(c)[0] == 2
+
+
 def documented(name, a):
     """breakpoints documented for Env.<name>(**a) (a = complete keyword arguments)"""
     F = Fr
@@ -106,7 +117,7 @@ def documented(name, a):
         return _bp([(0, 0), (at, l), (at + st, l), (at + st + rt, 0)], _wrapshapes(a['curve'], 3))
     if name == 'cutoff':
         rt, l = F(a['release_time']), F(a['level'])
-        end = F(1e-5) if _shape(a['curve'])[0] == 2 else 0       # -100 dB for exponential segments
+        end = F(1e-5) if _cutoff_is_exp(a['curve']) else 0       # -100 dB for exponential segments
         return _bp([(0, l), (rt, end)], _wrapshapes(a['curve'], 1), rel=0)
     if name == 'asr':
         at, sl, rt = F(a['attack_time']), F(a['sustain_level']), F(a['release_time'])
@@ -168,6 +179,11 @@ def constructor_cases(rng, n):
                 continue
             v = {'curve': 'sine', 'release_level': 1, 'loop_level': 0}.get(k, 0.75 if k != 'levels' else None)
             out.append((name, {k: v}, documented(name, dict(d, **{k: v}))))
+    spell = sorted(SERVER_SHAPES) + [2, 2.0, -4, 0]
+    for name, d in DEFAULTS.items():
+        if 'curve' in d:
+            for sp in spell + [[x] for x in spell]:
+                out.append((name, {'curve': sp}, documented(name, dict(d, curve=sp))))
     for _ in range(n):
         for name, d in DEFAULTS.items():
             a = {}
@@ -224,8 +240,7 @@ def reference_args(name, a):
     if name == 'linen':
         return [0, a['level'], a['level'], 0], [a['attack_time'], a['sustain_time'], a['release_time']], a['curve'], None, None, 0
     if name == 'cutoff':
-        k = _shape(a['curve'])[0]
-        return [a['level'], math.pow(10., -100 * .05) if k == 2 else 0], [a['release_time']], a['curve'], 0, None, 0
+        return [a['level'], math.pow(10., -100 * .05) if _cutoff_is_exp(a['curve']) else 0], [a['release_time']], a['curve'], 0, None, 0
     if name == 'asr':
         return [0, a['sustain_level'], 0], [a['attack_time'], a['release_time']], a['curve'], 1, None, 0
     if name == 'adsr':
